@@ -47,6 +47,7 @@ def unframe(prefix_size=4, byteorder='little'):
                 bio.write(acc)
                 bio.write(i)
 
+                frames = []
                 bio_len = len(bio.getbuffer())
                 bio.seek(offset, io.SEEK_SET)
                 while bio_len - offset >= prefix_size:
@@ -54,13 +55,16 @@ def unframe(prefix_size=4, byteorder='little'):
                     if bio_len - offset - prefix_size >= size:
                         data = bio.read(size)
                         offset += size + prefix_size
-                        observer.on_next(data)
+                        frames.append(data)
                     else:
                         break
 
                 bio.seek(offset, io.SEEK_SET)
                 acc = bio.read()
                 bio.close()
+                # the pending bytes are stored before the frames are emitted
+                for data in frames:
+                    observer.on_next(data)
 
             return source.subscribe(
                 on_next=on_next,
